@@ -59,7 +59,7 @@ def fingerprint(block):
                     except pyrtl.PyrtlError:
                         rom = 'partial'
                 mems[id(m)] = (m.name, m.id, m.bitwidth, m.addrwidth, m.asynchronous,
-                               type(m).__name__, rom)
+                               type(m).__name__, rom, getattr(m, 'pad_with_zeros', None))
                 ports[id(m)] = (m.name, m.id, len(m.readport_nets), len(m.writeport_nets))
         nets.append((net.op, repr(p), tuple(a.name for a in net.args),
                      tuple(d.name for d in net.dests)))
